@@ -101,6 +101,20 @@ Inbound(mm, got) ==
 Incomplete == {"response missing", "column definitions missing", "resultset not terminated",
                "EOF after column definitions missing", "field list not terminated"}
 
+\* Layered attribution: output that cannot be decoded violates C03 (no conformant response) and also the
+\* property that speaks about the layer that failed (a value that cannot be decoded has not arrived unchanged)
+MetaWhy == {"column count packet", "LOCAL INFILE request", "coldef: catalog", "coldef: schema", "coldef: table", "coldef: org_table",
+            "coldef: name", "coldef: org_name", "coldef: fixed fields truncated", "coldef: fixed-length marker", "coldef: catalog is not def",
+            "coldef: trailing bytes", "EOF after column definitions malformed", "prepare-OK packet", "EOF after parameter definitions",
+            "EOF after column definitions", "column definitions missing", "EOF after column definitions missing", "MORE flag on the metadata EOF"}
+OkWhy == {"OK: affected rows", "OK: last insert id", "OK: truncated", "not an OK packet"}
+ErrWhy == {"ERR: truncated", "ERR: sqlstate marker missing", "not an ERR packet"}
+Undecodable(what, why, at) ==
+  {V("C03", at, what \o " undecodable: " \o why)}
+  \cup (IF why \in MetaWhy THEN {V("C09", at, "column metadata undecodable: " \o why)} ELSE {})
+  \cup (IF why \in OkWhy THEN {V("C14", at, "completion packet undecodable: " \o why)} ELSE {})
+  \cup (IF why \in ErrWhy THEN {V("C13", at, "error packet undecodable: " \o why)} ELSE {})
+
 \* sequence ids of the packets of messages M[1..used] must continue req+1 (C05)
 SeqViol(M, used, req, at) ==
   LET bad == {j \in 1..used : M[j].seq0 # (IF j = 1 THEN (req + 1) % 256 ELSE (M[j - 1].seqN + 1) % 256) \/ ~M[j].consec} IN
@@ -117,7 +131,7 @@ JudgeReply(mm, e, M, at) ==
   IF c.kind = "hs" THEN
      LET d == DecUnit(M, 1) IN
      IF ~d.ok THEN [done |-> d.why \notin Incomplete, used |-> 0, floats |-> << >>, lost |-> d.why \notin Incomplete,
-                    viol |-> IF d.why \in Incomplete THEN {} ELSE {V("C11", at, "handshake reply undecodable: " \o d.why)}]
+                    viol |-> IF d.why \in Incomplete THEN {} ELSE {V("C11", at, "handshake reply undecodable: " \o d.why)}, why |-> d.why]
      ELSE [done |-> TRUE, used |-> 1, floats |-> << >>, lost |-> FALSE,
            viol |-> (IF e.ret = "ok"
                      THEN (IF d.u.k # "ok" THEN {V("C11", at, "accepted authentication not answered with OK")} ELSE {})
@@ -128,20 +142,20 @@ JudgeReply(mm, e, M, at) ==
   ELSE IF c.kind = "ping" THEN
      LET d == DecUnit(M, 1) IN
      IF ~d.ok THEN [done |-> d.why \notin Incomplete, used |-> 0, floats |-> << >>, lost |-> d.why \notin Incomplete,
-                    viol |-> IF d.why \in Incomplete THEN {} ELSE {V("C03", at, "ping reply undecodable: " \o d.why)}]
+                    viol |-> IF d.why \in Incomplete THEN {} ELSE Undecodable("ping reply", d.why, at), why |-> d.why]
      ELSE [done |-> TRUE, used |-> 1, floats |-> << >>, lost |-> d.u.k # "ok" \/ d.more,
            viol |-> (IF d.u.k # "ok" \/ d.more THEN {V("C03", at, "ping not answered with a final OK")} ELSE {}) \cup SeqViol(M, 1, e.seq, at)]
   ELSE IF c.kind = "fieldlist" THEN
      LET d == DecFieldList(M, 1) IN
      IF ~d.ok THEN [done |-> d.why \notin Incomplete, used |-> 0, floats |-> << >>, lost |-> d.why \notin Incomplete,
-                    viol |-> IF d.why \in Incomplete THEN {} ELSE {V("C03", at, "field-list reply undecodable: " \o d.why)}]
+                    viol |-> IF d.why \in Incomplete THEN {} ELSE Undecodable("field-list reply", d.why, at), why |-> d.why]
      ELSE [done |-> TRUE, used |-> d.next - 1, floats |-> << >>, lost |-> FALSE, viol |-> SeqViol(M, d.next - 1, e.seq, at)]
   ELSE IF c.kind = "prepare" /\ Len(e.prog) = 0 THEN
      [done |-> TRUE, used |-> 0, floats |-> << >>, lost |-> TRUE, viol |-> {}]
   ELSE IF c.kind = "prepare" THEN
      LET d == DecPrepare(M, 1) IN
      IF ~d.ok THEN [done |-> d.why \notin Incomplete, used |-> 0, floats |-> << >>, lost |-> d.why \notin Incomplete,
-                    viol |-> IF d.why \in Incomplete THEN {} ELSE {V("C03", at, "prepare reply undecodable: " \o d.why)}]
+                    viol |-> IF d.why \in Incomplete THEN {} ELSE Undecodable("prepare reply", d.why, at), why |-> d.why]
      ELSE LET o == e.prog[1].op IN
        [done |-> TRUE, used |-> d.next - 1, floats |-> << >>, lost |-> FALSE,
         viol |-> SeqViol(M, d.next - 1, e.seq, at) \cup
@@ -153,7 +167,7 @@ JudgeReply(mm, e, M, at) ==
   ELSE \* selvar, query, execute, use, initdb: a chain of response units
      LET d == DecResponse(M, 1) IN
      IF ~d.ok THEN [done |-> d.why \notin Incomplete, used |-> 0, floats |-> << >>, lost |-> d.why \notin Incomplete,
-                    viol |-> IF d.why \in Incomplete THEN {} ELSE {V("C03", at, "response undecodable: " \o d.why)}]
+                    viol |-> IF d.why \in Incomplete THEN {} ELSE Undecodable("response", d.why, at), why |-> d.why]
      ELSE IF c.kind = "selvar" THEN
        [done |-> TRUE, used |-> d.next - 1, floats |-> << >>, lost |-> FALSE, viol |-> SeqViol(M, d.next - 1, e.seq, at)]
      ELSE
@@ -199,7 +213,10 @@ Consume(mm, v, at, strict) ==
              j == JudgeReply(mm, e, r.msgs, at)
          IN IF ~j.done THEN
               (IF (e.st = "ret" /\ ~(mm.enc /\ mm.ctls)) \/ strict
-               THEN [m |-> [mm EXCEPT !.lost = TRUE], v |-> v \cup {V("C03", at, "response missing or incomplete for a " \o e.cls.kind \o " command")}]
+               THEN [m |-> [mm EXCEPT !.lost = TRUE],
+                     v |-> v \cup {V("C03", at, "response missing or incomplete for a " \o e.cls.kind \o " command")}
+                             \cup (IF "why" \in DOMAIN j /\ j.why \in MetaWhy
+                                   THEN {V("C09", at, "column metadata incomplete: " \o j.why)} ELSE {})]
                ELSE [m |-> mm, v |-> v])
             ELSE LET mm2 == [mm EXCEPT !.q = Tail(@), !.cur = IF @ > 0 THEN @ - 1 ELSE 0, !.ob = AfterMsgs(mm.ob, r.msgs, j.used),
                                        !.lost = j.lost, !.floats = @ \o j.floats, !.n.units = @ + 1, !.n.pkts = @ + j.used]
@@ -364,7 +381,9 @@ Step ==
                      r == IF q.cls.kind = "execute" THEN RegFind(m.reg, q.cls.arg) ELSE 0
                      \* all declared parameters must have been delivered (C08)
                      pvv == IF q.cls.kind = "execute" /\ q.exp.ok /\ ~m.lost /\ ~m.free /\ q.npv # Len(q.exp.vals) /\ e.ret.k # "panic"
-                            THEN {V("C08", l, "number of parameters delivered differs from the number declared")} ELSE {}
+                            THEN {V("C08", l, "number of parameters delivered differs from the number declared")}
+                                 \cup (IF ~q.exp.rebind THEN {V("C16", l, "an execution that re-uses bound types did not receive all its parameters")} ELSE {})
+                            ELSE {}
                      mm == [m EXCEPT !.q[m.cur].st = "ret", !.q[m.cur].ret = IF isok THEN "ok" ELSE "err", !.cur = 0,
                                      !.dead = IF ~isok /\ @ = "" THEN (IF q.cls.kind = "hs" THEN "authentication rejected" ELSE "shim callback failed") ELSE @,
                                      !.token = IF ~isok /\ m.dead = "" /\ e.ret.k = "shim" THEN e.ret.token ELSE @,
